@@ -30,6 +30,7 @@ WellFormed(p) == \A i \in 1..Len(p) : p[i].kind = "ref" =>
 Defs(p) == {k \in 1..Len(p) : p[k].kind = "def"}
 Faults(p) == {<<"none", 0, 0>>} \cup {<<"dangling", k, 0>> : k \in {i \in 1..Len(p) : p[i].kind = "ref"}}
              \cup {<<"duplicate-id", q[1], q[2]>> : q \in {r \in Defs(p) \X Defs(p) : r[1] < r[2]}}
+             \cup {<<"duplicate-id-nested", i, 0>> : i \in Defs(p)}        \* the id again on a descendant of its holder
 
 Init == IF Which = "prune" THEN plan \in PrunePlans ELSE plan = <<>>
 Next == /\ Which = "expand" /\ Len(plan) < MaxItems /\ \E it \in Items : plan' = Append(plan, it)
